@@ -35,7 +35,7 @@ func vReaderSegment(reopen bool) (segment.Segment, *sSpec) {
 
 // vReaderOp runs one reader operation chosen symbolically.
 func vReaderOp(seg segment.Segment, sp *sSpec, tag string) {
-	switch vChoice(tag+"op", 6) {
+	switch vChoice(tag+"op", 7) {
 	case 0: // stored-field visit that stops after a symbolic number of callbacks
 		d := vChoice(tag+"doc", 3)
 		stop := 1 + vChoice(tag+"stop", 3)
@@ -52,10 +52,17 @@ func vReaderOp(seg segment.Segment, sp *sSpec, tag string) {
 		sCheckPostings(seg, sp, "p-")
 	case 4:
 		sCheckDocValues(seg, sp, []int{1, 0}, "dv-")
-	case 5: // the segment as input of a merge
+	case 5: // the segment as input of a merge (byte-copy path)
 		var z ZapPlugin
 		_, _, err := z.Merge([]segment.Segment{seg}, []*roaring.Bitmap{nil}, vP(tag+"m.zap"), nil, nil)
 		vAssert(err == nil, "merge-err")
+	case 6: // twice as input of one merge, with deletions (per-document path for both inputs)
+		var z ZapPlugin
+		d0, d1 := roaring.New(), roaring.New()
+		d0.Add(0)
+		d1.Add(1)
+		_, _, err := z.Merge([]segment.Segment{seg, seg}, []*roaring.Bitmap{d0, d1}, vP(tag+"m2.zap"), nil, nil)
+		vAssert(err == nil, "merge2-err")
 	}
 }
 
